@@ -95,14 +95,13 @@ func expect(tier string) []string {
 	for _, d := range decoders {
 		ex = append(ex, "decoder="+d.name)
 	}
-	ex = append(ex, "history=fresh", "history=constructed-other", "history=decoded-other", "history=same-value", "writer=json-promoted")
+	ex = append(ex, "history=fresh", "history=constructed-other", "history=decoded-other", "history=same-value")
 	for _, s := range streamReaders {
 		ex = append(ex, "stream-reader="+s.name)
 	}
 	for _, b := range bufSizes {
 		ex = append(ex, "frag-buffer="+bufName(b))
 	}
-	ex = append(ex, "frag-result=fatal")
 	ex = append(ex, "frag-chunks=full", "frag-chunks=short-reads", "frag-chunks=eof-with-data", "frag-chunks=zero-nil-read")
 	ex = append(ex, "trunc-decoder=UnmarshalBinary", "trunc-decoder=ReadFrom(bufio.Reader)", "trunc-decoder=json.Unmarshal")
 	ex = append(ex, "corrupt-decoder=UnmarshalBinary", "corrupt-decoder=ReadFrom(bufio.Reader)", "corrupt-decoder=json.Unmarshal",
